@@ -192,3 +192,148 @@ def h_prefix_kernels(a, b):
 
 def b_prefix_kernels(src, na, nb):
     return [tuple(src.int(f"a{i}", 8, 0, 15) for i in range(na)), tuple(src.int(f"b{i}", 8, 0, 15) for i in range(nb))]
+
+
+# ---------------------------------------------------------------------------------------- C14 / C15
+from eth_utils import to_int  # noqa: E402
+from trie.smt import SparseMerkleProof, SparseMerkleTree, calc_root  # noqa: E402
+
+
+def _walk_hashes(t, key_int, depth):
+    """hashes of the nodes on key's path below the root, root-side first (read from the tree's db)"""
+    out = []
+    node_hash = t.root_hash
+    target = 1 << (depth - 1)
+    for _ in range(depth):
+        node = t.db[node_hash]
+        if key_int & target:
+            node_hash = node[32:]
+        else:
+            node_hash = node[:32]
+        out.append(node_hash)
+        target >>= 1
+    return tuple(out)
+
+
+def h_smt(ks, default, ops, kinds, q):
+    """ops: ((key, value), ...); kinds: tuple of bools (True = delete).  All keys/values/default/q symbolic."""
+    t = SparseMerkleTree(key_size=ks, default=default)
+    conds = []
+    spec = default
+    for (k, v), is_del in zip(ops, kinds):
+        if is_del:
+            upd = t.delete(k)
+            x = default
+        else:
+            upd = t.set(k, v)
+            x = v
+        conds.append(tuple(upd) == _walk_hashes(t, to_int(k), 8 * ks))
+        spec = x if k == q else spec
+    val, br = t._get(q)
+    conds.append(val == spec)
+    conds.append(calc_root(q, val, br) == t.root_hash)
+    conds.append(len(br) == 8 * ks)
+    conds.append(t.exists(q) == (spec != b""))
+    if spec != b"":
+        conds.append(t.get(q) == spec)
+        conds.append(tuple(t.branch(q)) == tuple(br))
+    else:
+        try:
+            t.get(q)
+            conds.append(False)
+        except KeyError:
+            pass
+    other = SparseMerkleTree.from_db(t.db, t.root_hash, key_size=ks, default=default)
+    v2, b2 = other._get(q)
+    conds.append(v2 == val)
+    conds.append(tuple(b2) == tuple(br))
+    return all(conds)
+
+
+def _val(src, name, shape):
+    return b"" if shape == 0 else src.atom(name, shape)
+
+
+def b_smt(src, ks, dshape, vshapes, kinds):
+    default = _val(src, "default", dshape)
+    ops = tuple((src.bv(f"k{i}", ks), _val(src, f"v{i}", s)) for i, s in enumerate(vshapes))
+    return [ks, default, ops, tuple(kinds), src.bv("q", ks)]
+
+
+def h_smt_clear(ks, default, ops):
+    """writing and then clearing everything restores the initial root; two orders of writes to different keys agree"""
+    t = SparseMerkleTree(key_size=ks, default=default)
+    root0 = t.root_hash
+    for k, v in ops:
+        t.set(k, v)
+    for k, v in ops:
+        t.delete(k)
+    conds = [t.root_hash == root0]
+    if len(ops) == 2:
+        (k1, v1), (k2, v2) = ops
+        if k1 != k2:
+            a = SparseMerkleTree(key_size=ks, default=default)
+            a.set(k1, v1)
+            a.set(k2, v2)
+            b = SparseMerkleTree(key_size=ks, default=default)
+            b.set(k2, v2)
+            b.set(k1, v1)
+            conds.append(a.root_hash == b.root_hash)
+    return all(conds)
+
+
+def b_smt_clear(src, ks, dshape, vshapes):
+    default = _val(src, "default", dshape)
+    return [ks, default, tuple((src.bv(f"k{i}", ks), _val(src, f"v{i}", s)) for i, s in enumerate(vshapes))]
+
+
+def h_proof_sync(ks, default, pre, tracked, updates, kinds):
+    """a SparseMerkleProof fed every update of the tree stays equal to the tree, never querying it again"""
+    t = SparseMerkleTree(key_size=ks, default=default)
+    for k, v in pre:
+        t.set(k, v)
+    val0, br0 = t._get(tracked)
+    p = SparseMerkleProof(tracked, val0, br0)
+    conds = [p.root_hash == t.root_hash]
+    for (k, v), is_del in zip(updates, kinds):
+        if is_del:
+            upd = t.delete(k)
+            x = default
+        else:
+            upd = t.set(k, v)
+            x = v
+        p.update(k, x, upd)
+        tv, tb = t._get(tracked)
+        conds.append(p.value == tv)
+        conds.append(tuple(p.branch) == tuple(tb))
+        conds.append(p.root_hash == t.root_hash)
+        conds.append(p.key == tracked)
+    return all(conds)
+
+
+def b_proof_sync(src, ks, dshape, preshapes, vshapes, kinds):
+    default = _val(src, "default", dshape)
+    pre = tuple((src.bv(f"p{i}", ks), _val(src, f"pv{i}", s)) for i, s in enumerate(preshapes))
+    ups = tuple((src.bv(f"k{i}", ks), _val(src, f"v{i}", s)) for i, s in enumerate(vshapes))
+    return [ks, default, pre, src.bv("t", ks), ups, tuple(kinds)]
+
+
+def h_proof_trunc(ks, default, tracked, k, v, m):
+    """only the hashes down to the first differing bit are needed; a shorter list -> ValidationError, proof unchanged"""
+    depth = 8 * ks
+    t = SparseMerkleTree(key_size=ks, default=default)
+    val0, br0 = t._get(tracked)
+    p = SparseMerkleProof(tracked, val0, br0)
+    upd = t.set(k, v)[:m]
+    diff = to_int(tracked) ^ to_int(k)
+    enough = diff == 0 or (diff >> (depth - m)) != 0
+    try:
+        p.update(k, v, upd)
+    except ValidationError:
+        return (not enough) and p.value == val0 and tuple(p.branch) == tuple(br0)
+    tv, tb = t._get(tracked)
+    return enough and p.value == tv and tuple(p.branch) == tuple(tb) and p.root_hash == t.root_hash
+
+
+def b_proof_trunc(src, ks, dshape, vshape, m):
+    return [ks, _val(src, "default", dshape), src.bv("t", ks), src.bv("k", ks), _val(src, "v", vshape), m]
